@@ -1,5 +1,591 @@
-//! C06 — not implemented yet.
+//! C06 — pairings are bilinear, non-degenerate and identity-preserving in every model.
+//!
+//! Oracle: target-group equalities only.  With g = e(G1, G2) (the value the engine itself returns for the two
+//! generators), every pairing of P = a·G1, Q = b·G2 must equal g^(ab mod r), the exponent computed with BigUint
+//! arithmetic and the power with a plain square-and-multiply loop over target-field multiplication (never the
+//! cyclotomic paths of `PairingOutput`).
+use ark_ec::pairing::{MillerLoopOutput, Pairing, PairingOutput};
+use ark_ec::{AdditiveGroup, AffineRepr, CurveGroup, PrimeGroup};
+use ark_ff::{Field, One, PrimeField, Zero};
+use num_bigint::BigUint;
+use std::sync::{Arc, OnceLock};
+use vh_core::engine::{no_panic, Fail, Obs, PropSpec, Rel, Tape, Tier, R};
+use vh_core::gen::edge_value;
+use vh_core::modint::FieldCtx;
+use vh_core::{ensure, ensure_eq};
+
+// ---------------------------------------------------------------------------------------------------------------
+// context
+// ---------------------------------------------------------------------------------------------------------------
+
+struct Ctx<E: Pairing> {
+    name: &'static str,
+    /// scalar field r as BigUint context (edge-value generator)
+    fr: FieldCtx,
+    /// e(G1, G2).0, computed once by the engine under test
+    base: OnceLock<E::TargetField>,
+    /// whether the identity of G2 is generated for this engine (false only for the out-of-scope extra CP6-782, see NOTES.md)
+    g2_identity: bool,
+    /// longest list of the multi-pairing relation
+    max_len: u64,
+}
+
+impl<E: Pairing> Ctx<E> {
+    fn new(name: &'static str, g2_identity: bool, max_len: u64) -> Self {
+        let m = E::ScalarField::MODULUS;
+        Ctx { name, fr: FieldCtx::new(&format!("{}.Fr", name), m.as_ref()), base: OnceLock::new(), g2_identity, max_len }
+    }
+    fn base(&self) -> Result<E::TargetField, Fail> {
+        if let Some(b) = self.base.get() {
+            return Ok(*b);
+        }
+        let b = no_panic("pairing.generators", || E::pairing(E::G1Affine::generator(), E::G2Affine::generator()))?.0;
+        let _ = self.base.set(b);
+        Ok(b)
+    }
+}
+
+fn hx(v: &BigUint) -> String {
+    format!("0x{:x}", v)
+}
+
+/// abbreviated rendering for long lists (the replay tape holds the exact values)
+fn hx_short(v: &BigUint) -> String {
+    let s = format!("{:x}", v);
+    if s.len() <= 18 {
+        format!("0x{}", s)
+    } else {
+        format!("0x{}..{}<{}b>", &s[..8], &s[s.len() - 6..], v.bits())
+    }
+}
+
+/// plain left-to-right square-and-multiply with target-field multiplication only
+fn plain_pow<F: Field>(x: &F, e: &BigUint) -> F {
+    let mut acc = F::one();
+    for i in (0..e.bits()).rev() {
+        acc.square_in_place();
+        if e.bit(i) {
+            acc *= x;
+        }
+    }
+    acc
+}
+
+/// edge-biased scalar in [0, r): 0, 1, 2, r-1, near r, (r±1)/2, 2^k(±1), edge limbs, small, uniform
+/// `g2`: the scalar multiplies the generator of G2 (zero is replaced when the engine's G2 identity is not generated)
+fn scalar<E: Pairing>(c: &Ctx<E>, t: &mut Tape<'_>, g2: bool) -> (E::ScalarField, BigUint, &'static str) {
+    let (v, cls) = edge_value(t, &c.fr);
+    let v = if g2 && !c.g2_identity && v.is_zero() { BigUint::from(3u32) } else { v };
+    (E::ScalarField::from(v.clone()), v, cls)
+}
+
+// ---------------------------------------------------------------------------------------------------------------
+// input forms and API entry points
+// ---------------------------------------------------------------------------------------------------------------
+
+enum In1<E: Pairing> {
+    A(E::G1Affine),
+    P(E::G1),
+    R(E::G1Prepared),
+}
+enum In2<E: Pairing> {
+    A(E::G2Affine),
+    P(E::G2),
+    R(E::G2Prepared),
+}
+
+const FORMS: [&str; 4] = ["affine", "projective", "prepared<-affine", "prepared<-projective"];
+
+fn in1<E: Pairing>(p: E::G1, form: u64) -> Result<In1<E>, Fail> {
+    Ok(match form {
+        0 => In1::A(p.into_affine()),
+        1 => In1::P(p),
+        2 => In1::R(no_panic("G1Prepared::from(affine)", || E::G1Prepared::from(p.into_affine()))?),
+        _ => In1::R(no_panic("G1Prepared::from(projective)", || E::G1Prepared::from(p))?),
+    })
+}
+fn in2<E: Pairing>(q: E::G2, form: u64) -> Result<In2<E>, Fail> {
+    Ok(match form {
+        0 => In2::A(q.into_affine()),
+        1 => In2::P(q),
+        2 => In2::R(no_panic("G2Prepared::from(affine)", || E::G2Prepared::from(q.into_affine()))?),
+        _ => In2::R(no_panic("G2Prepared::from(projective)", || E::G2Prepared::from(q))?),
+    })
+}
+
+const APIS: [&str; 2] = ["pairing", "final_exponentiation(miller_loop)"];
+
+fn fe<E: Pairing>(m: MillerLoopOutput<E>) -> Result<PairingOutput<E>, Fail> {
+    match no_panic("final_exponentiation", || E::final_exponentiation(m))? {
+        Some(x) => Ok(x),
+        None => Err(Fail { sig: "final_exponentiation.none".into(), msg: "final_exponentiation returned None for a Miller loop output".into() }),
+    }
+}
+
+fn call<E: Pairing, A: Into<E::G1Prepared>, B: Into<E::G2Prepared>>(api: u64, p: A, q: B) -> Result<PairingOutput<E>, Fail> {
+    if api == 0 {
+        no_panic("pairing", || E::pairing(p, q))
+    } else {
+        let m = no_panic("miller_loop", || E::miller_loop(p, q))?;
+        fe::<E>(m)
+    }
+}
+
+fn call_in<E: Pairing>(api: u64, p: In1<E>, q: In2<E>) -> Result<PairingOutput<E>, Fail> {
+    match (p, q) {
+        (In1::A(p), In2::A(q)) => call::<E, _, _>(api, p, q),
+        (In1::A(p), In2::P(q)) => call::<E, _, _>(api, p, q),
+        (In1::A(p), In2::R(q)) => call::<E, _, _>(api, p, q),
+        (In1::P(p), In2::A(q)) => call::<E, _, _>(api, p, q),
+        (In1::P(p), In2::P(q)) => call::<E, _, _>(api, p, q),
+        (In1::P(p), In2::R(q)) => call::<E, _, _>(api, p, q),
+        (In1::R(p), In2::A(q)) => call::<E, _, _>(api, p, q),
+        (In1::R(p), In2::P(q)) => call::<E, _, _>(api, p, q),
+        (In1::R(p), In2::R(q)) => call::<E, _, _>(api, p, q),
+    }
+}
+
+/// e(p, q) through the entry point `api` with the inputs passed in the given forms
+fn pair<E: Pairing>(p: E::G1, q: E::G2, fp: u64, fq: u64, api: u64) -> Result<PairingOutput<E>, Fail> {
+    call_in::<E>(api, in1::<E>(p, fp)?, in2::<E>(q, fq)?)
+}
+
+const LIST_FORMS: [&str; 3] = ["affine lists", "projective lists", "prepared lists"];
+
+fn call_multi<E: Pairing, A: Into<E::G1Prepared>, B: Into<E::G2Prepared>>(api: u64, ps: Vec<A>, qs: Vec<B>) -> Result<PairingOutput<E>, Fail> {
+    if api == 0 {
+        no_panic("multi_pairing", || E::multi_pairing(ps, qs))
+    } else {
+        let m = no_panic("multi_miller_loop", || E::multi_miller_loop(ps, qs))?;
+        fe::<E>(m)
+    }
+}
+
+/// multi-pairing of equal-length lists; `mask` decides per entry whether a prepared value is made from the affine or the projective form
+fn multi<E: Pairing>(ps: &[E::G1], qs: &[E::G2], form: u64, mask: u64, api: u64) -> Result<PairingOutput<E>, Fail> {
+    match form {
+        0 => call_multi::<E, _, _>(api, ps.iter().map(|p| p.into_affine()).collect::<Vec<_>>(), qs.iter().map(|q| q.into_affine()).collect::<Vec<_>>()),
+        1 => call_multi::<E, _, _>(api, ps.to_vec(), qs.to_vec()),
+        _ => {
+            let mut a = Vec::new();
+            let mut b = Vec::new();
+            for (i, (p, q)) in ps.iter().zip(qs).enumerate() {
+                let r1 = match in1::<E>(*p, 2 + ((mask >> (2 * i)) & 1))? {
+                    In1::R(r) => r,
+                    _ => unreachable!(),
+                };
+                let r2 = match in2::<E>(*q, 2 + ((mask >> (2 * i + 1)) & 1))? {
+                    In2::R(r) => r,
+                    _ => unreachable!(),
+                };
+                a.push(r1);
+                b.push(r2);
+            }
+            call_multi::<E, _, _>(api, a, b)
+        },
+    }
+}
+
+// ---------------------------------------------------------------------------------------------------------------
+// relations
+// ---------------------------------------------------------------------------------------------------------------
+
+/// e(aG1, bG2) = g^(ab); two entry points / input forms agree; output has order dividing r; g != 1
+fn bilinear<E: Pairing>(c: &Ctx<E>, t: &mut Tape<'_>, o: &mut Obs) -> R {
+    let (a, av, ac) = scalar(c, t, false);
+    let (b, bv, bc) = scalar(c, t, true);
+    let (fp, fq, api) = (t.below(4), t.below(4), t.below(2));
+    let (fp2, fq2) = (t.below(4), t.below(4));
+    o.show(|| {
+        format!(
+            "{}: {}(P: {}, Q: {}) and {}(P: {}, Q: {}) with P = a*G1, Q = b*G2, a={} [{}] b={} [{}]",
+            c.name, APIS[api as usize], FORMS[fp as usize], FORMS[fq as usize], APIS[1 - api as usize], FORMS[fp2 as usize], FORMS[fq2 as usize], hx(&av), ac, hx(&bv), bc
+        )
+    });
+    let one = BigUint::one();
+    o.nt(!av.is_zero() && !bv.is_zero() && (av > one || bv > one));
+    o.class(ac);
+    o.class_if(av.is_zero() || bv.is_zero(), "identity-operand");
+    o.class_if(fp >= 2 || fq >= 2, "prepared-input");
+    o.class_if(fp == 1 || fq == 1, "projective-input");
+    o.evals(5);
+    let p = E::G1::generator() * a;
+    let q = E::G2::generator() * b;
+    let g = c.base()?;
+    ensure!(!g.is_one(), "nondegenerate", "e(G1, G2) is the identity of the target group");
+    let want = plain_pow(&g, &((&av * &bv) % &c.fr.p));
+    let got = pair::<E>(p, q, fp, fq, api)?;
+    ensure!(got.0 == want, "bilinear", "e(aG1, bG2) != e(G1,G2)^(ab): a={} b={} via {} ({}, {})", hx(&av), hx(&bv), APIS[api as usize], FORMS[fp as usize], FORMS[fq as usize]);
+    if av.is_zero() || bv.is_zero() {
+        ensure!(got.is_zero() && got.0.is_one(), "identity", "pairing with an identity operand is not the identity");
+    }
+    let got2 = pair::<E>(p, q, fp2, fq2, 1 - api)?;
+    ensure!(got2 == got, "forms", "{}({}, {}) != {}({}, {}) for a={} b={}", APIS[1 - api as usize], FORMS[fp2 as usize], FORMS[fq2 as usize], APIS[api as usize], FORMS[fp as usize], FORMS[fq as usize], hx(&av), hx(&bv));
+    ensure!(plain_pow(&got.0, &c.fr.p).is_one(), "order", "output^r != 1 for a={} b={}", hx(&av), hx(&bv));
+    Ok(())
+}
+
+/// additivity in each slot
+fn additive<E: Pairing>(c: &Ctx<E>, t: &mut Tape<'_>, o: &mut Obs) -> R {
+    let slot = t.below(2);
+    // slot 0: x1, x2 multiply G1 and y multiplies G2; slot 1: the other way round
+    let (_, a1v, ac) = scalar(c, t, slot == 1);
+    let r = &c.fr.p;
+    let (a2v, rel) = match t.weighted(&[6, 1, 1, 1]) {
+        0 => (scalar(c, t, slot == 1).1, "independent"),
+        1 => (a1v.clone(), "same"),
+        2 if c.g2_identity || slot == 0 => ((r - &a1v) % r, "negation"),
+        _ => ((r + r - &a1v - 1u32) % r, "negation-1"),
+    };
+    let (_, bv, _) = scalar(c, t, slot == 0);
+    let forms = [t.below(4), t.below(4), t.below(4), t.below(4), t.below(4), t.below(4)];
+    let api = t.below(2);
+    o.show(|| {
+        format!(
+            "{}: additivity in slot {}: x1={} [{}] x2={} [{}] other={} via {}",
+            c.name, slot + 1, hx(&a1v), ac, hx(&a2v), rel, hx(&bv), APIS[api as usize]
+        )
+    });
+    let one = BigUint::one();
+    let sum = (&a1v + &a2v) % r;
+    o.nt(!a1v.is_zero() && !a2v.is_zero() && !bv.is_zero() && (a1v > one || a2v > one || bv > one));
+    o.class(rel);
+    o.class_if(sum.is_zero(), "sum-is-identity");
+    o.class_if(slot == 0, "slot-G1");
+    o.class_if(slot == 1, "slot-G2");
+    o.evals(4);
+    let (s1, s2, sb) = (E::ScalarField::from(a1v.clone()), E::ScalarField::from(a2v.clone()), E::ScalarField::from(bv.clone()));
+    let (e1, e2, es) = if slot == 0 {
+        let (p1, p2, q) = (E::G1::generator() * s1, E::G1::generator() * s2, E::G2::generator() * sb);
+        (pair::<E>(p1, q, forms[0], forms[1], api)?, pair::<E>(p2, q, forms[2], forms[3], api)?, pair::<E>(p1 + p2, q, forms[4], forms[5], api)?)
+    } else {
+        let (q1, q2, p) = (E::G2::generator() * s1, E::G2::generator() * s2, E::G1::generator() * sb);
+        (pair::<E>(p, q1, forms[0], forms[1], api)?, pair::<E>(p, q2, forms[2], forms[3], api)?, pair::<E>(p, q1 + q2, forms[4], forms[5], api)?)
+    };
+    ensure!(es.0 == e1.0 * e2.0, "additive", "e(X1+X2, Y) != e(X1,Y)*e(X2,Y) in slot {}: x1={} x2={} y={}", slot + 1, hx(&a1v), hx(&a2v), hx(&bv));
+    ensure!(e1 + e2 == es, "additive.output-add", "PairingOutput sum differs from the pairing of the sum");
+    let g = c.base()?;
+    ensure!(es.0 == plain_pow(&g, &((&sum * &bv) % r)), "additive.value", "e(X1+X2, Y) != g^((x1+x2)y): x1={} x2={} y={}", hx(&a1v), hx(&a2v), hx(&bv));
+    Ok(())
+}
+
+/// multi_pairing / multi_miller_loop+final_exponentiation over lists of 0..=9 pairs = sum of the pairings = g^(sum a_i b_i)
+fn multi_rel<E: Pairing>(c: &Ctx<E>, t: &mut Tape<'_>, o: &mut Obs) -> R {
+    let n = match t.weighted(&[1, 1, 3, 2, 3, 2]) {
+        0 => 0,
+        1 => 1,
+        2 => t.range(2, 4),
+        3 => 5,
+        4 => t.range(6, 8),
+        _ => 9,
+    }
+    .min(c.max_len) as usize;
+    let r = &c.fr.p;
+    // pools of three scalars per group; entries pick identity / generator / a pool element, so repeats are frequent
+    let pool1: Vec<BigUint> = (0..3).map(|_| scalar(c, t, false).1).collect();
+    let pool2: Vec<BigUint> = (0..3).map(|_| scalar(c, t, true).1).collect();
+    let id_w = if c.g2_identity { 1 } else { 0 };
+    let mut ks1 = Vec::new();
+    let mut ks2 = Vec::new();
+    let mut sel = Vec::new();
+    for _ in 0..n {
+        let i = t.weighted(&[1, 2, 2, 2, 1]);
+        let j = t.weighted(&[1, 2, 2, 2, id_w]);
+        let pick = |i: usize, pool: &Vec<BigUint>| match i {
+            0 => BigUint::one(),
+            4 => BigUint::zero(),
+            k => pool[k - 1].clone(),
+        };
+        ks1.push(pick(i, &pool1));
+        ks2.push(pick(j, &pool2));
+        sel.push((i, j));
+    }
+    let form_a = t.below(3);
+    let form_b = t.below(3);
+    let mask = t.below(1 << 20);
+    let api = t.below(2);
+    let n_id = ks1.iter().zip(&ks2).filter(|(a, b)| a.is_zero() || b.is_zero()).count();
+    let mut seen = std::collections::BTreeSet::new();
+    let repeated = sel.iter().any(|s| !seen.insert(*s));
+    o.show(|| {
+        format!(
+            "{}: {} pairs (a_i, b_i) = {:?}; {} over {} vs {} over {}; {} identity pairs",
+            c.name,
+            n,
+            ks1.iter().zip(&ks2).map(|(a, b)| format!("({},{})", hx_short(a), hx_short(b))).collect::<Vec<_>>(),
+            if api == 0 { "multi_pairing" } else { "final_exponentiation(multi_miller_loop)" },
+            LIST_FORMS[form_a as usize],
+            if api == 1 { "multi_pairing" } else { "final_exponentiation(multi_miller_loop)" },
+            LIST_FORMS[form_b as usize],
+            n_id
+        )
+    });
+    o.nt(n >= 2);
+    o.class(match n {
+        0 => "len-0",
+        1 => "len-1",
+        2..=4 => "len-2..4",
+        5..=8 => "len-5..8",
+        _ => "len-9",
+    });
+    o.class_if(n_id > 0, "list-with-identity");
+    o.class_if(n - n_id >= 5, ">=5-live-pairs");
+    o.class_if(n > 0 && n_id == n, "all-identity");
+    o.class_if(repeated, "repeated-pair");
+    o.class_if(form_a == 2 || form_b == 2, "prepared-lists");
+    o.evals(3);
+    let ps: Vec<E::G1> = ks1.iter().enumerate().map(|(i, k)| point::<E::G1>(k, i)).collect();
+    let qs: Vec<E::G2> = ks2.iter().enumerate().map(|(i, k)| point::<E::G2>(k, i + 1)).collect();
+    let g = c.base()?;
+    let mut exp = BigUint::zero();
+    for (a, b) in ks1.iter().zip(&ks2) {
+        exp = (exp + a * b) % r;
+    }
+    let want = plain_pow(&g, &exp);
+    let got = multi::<E>(&ps, &qs, form_a, mask, api)?;
+    // sum of the individual pairings (memoised per distinct selector pair)
+    let mut memo: std::collections::BTreeMap<(usize, usize), E::TargetField> = Default::default();
+    let mut prod = E::TargetField::one();
+    for (k, s) in sel.iter().enumerate() {
+        let v = match memo.get(s) {
+            Some(v) => *v,
+            None => {
+                let v = pair::<E>(ps[k], qs[k], (mask >> k) & 1, (mask >> (k + 1)) & 1, 0)?.0;
+                memo.insert(*s, v);
+                v
+            },
+        };
+        prod *= v;
+    }
+    let desc = || format!("{} pairs, {} with an identity, selectors {:?}", n, n_id, sel);
+    ensure!(got.0 == prod, "multi.sum", "{} != product of the individual pairings ({})", if api == 0 { "multi_pairing" } else { "fe(multi_miller_loop)" }, desc());
+    ensure!(got.0 == want, "multi.value", "multi-pairing != g^(sum a_i b_i) ({})", desc());
+    let got2 = multi::<E>(&ps, &qs, form_b, mask >> 3, 1 - api)?;
+    ensure!(got2 == got, "multi.forms", "multi_pairing and final_exponentiation(multi_miller_loop) disagree ({} / {}; {})", LIST_FORMS[form_a as usize], LIST_FORMS[form_b as usize], desc());
+    if n == 0 || n_id == n {
+        ensure!(got.is_zero(), "multi.identity", "multi-pairing of identity pairs / the empty list is not the identity");
+    }
+    ensure!(plain_pow(&got.0, r).is_one(), "order", "multi-pairing output^r != 1");
+    Ok(())
+}
+
+/// k·G; the identity is produced in alternating representations (zero(), X - X)
+fn point<G: CurveGroup>(k: &BigUint, i: usize) -> G {
+    if k.is_zero() {
+        if i % 2 == 0 {
+            G::zero()
+        } else {
+            let x = G::generator().double();
+            x - x
+        }
+    } else {
+        G::generator() * G::ScalarField::from(k.clone())
+    }
+}
+
+const KINDS: [&str; 7] = ["affine identity", "projective zero()", "projective X-X", "prepared<-affine identity", "prepared<-projective zero", "generator (affine)", "k*generator (projective)"];
+
+/// every representation of the identity in either slot, through both entry points: the result is the identity, returned not panicked
+fn identity_rel<E: Pairing>(c: &Ctx<E>, t: &mut Tape<'_>, o: &mut Obs) -> R {
+    let kp = t.below(7);
+    let kq = if c.g2_identity { t.below(7) } else { 5 + t.below(2) };
+    let api = t.below(2);
+    let k1 = 2 + t.below(1 << 16);
+    let k2 = 2 + t.below(1 << 16);
+    o.show(|| format!("{}: {}(P: {}, Q: {}) k1={} k2={}", c.name, APIS[api as usize], KINDS[kp as usize], KINDS[kq as usize], k1, k2));
+    o.nt(kp >= 5 && kq >= 5 && (kp == 6 || kq == 6));
+    o.class_if(kp < 5 && kq < 5, "both-identity");
+    o.class_if((kp < 5) != (kq < 5), "one-identity");
+    o.class_if(kp == 5 && kq == 5, "generators");
+    let x1 = {
+        let x = E::G1::generator() * E::ScalarField::from(k1);
+        x - x
+    };
+    let x2 = {
+        let x = E::G2::generator() * E::ScalarField::from(k2);
+        x - x
+    };
+    let (p, s1): (In1<E>, u64) = match kp {
+        0 => (In1::A(E::G1Affine::zero()), 0),
+        1 => (In1::P(E::G1::zero()), 0),
+        2 => (In1::P(x1), 0),
+        3 => (in1::<E>(E::G1::zero(), 2)?, 0),
+        4 => (in1::<E>(x1, 3)?, 0),
+        5 => (In1::A(E::G1Affine::generator()), 1),
+        _ => (In1::P(E::G1::generator() * E::ScalarField::from(k1)), k1),
+    };
+    let (q, s2): (In2<E>, u64) = match kq {
+        0 => (In2::A(E::G2Affine::zero()), 0),
+        1 => (In2::P(E::G2::zero()), 0),
+        2 => (In2::P(x2), 0),
+        3 => (in2::<E>(E::G2::zero(), 2)?, 0),
+        4 => (in2::<E>(x2, 3)?, 0),
+        5 => (In2::A(E::G2Affine::generator()), 1),
+        _ => (In2::P(E::G2::generator() * E::ScalarField::from(k2)), k2),
+    };
+    let got = call_in::<E>(api, p, q)?;
+    if s1 == 0 || s2 == 0 {
+        ensure!(got.0.is_one() && got == PairingOutput::<E>::zero(), "identity", "{}({}, {}) is not the identity of the target group", APIS[api as usize], KINDS[kp as usize], KINDS[kq as usize]);
+    } else {
+        ensure!(!got.0.is_one(), "nondegenerate", "{}({} , {}) with k1={} k2={} is the identity", APIS[api as usize], KINDS[kp as usize], KINDS[kq as usize], s1, s2);
+        let g = c.base()?;
+        ensure!(got.0 == plain_pow(&g, &BigUint::from(s1 as u128 * s2 as u128)), "bilinear", "e({}G1, {}G2) != g^({}*{})", s1, s2, s1, s2);
+        ensure!(plain_pow(&got.0, &c.fr.p).is_one(), "order", "output^r != 1");
+    }
+    Ok(())
+}
+
+/// PairingOutput group structure (written additively) against multiplication / inversion in the target field
+fn grouplaws<E: Pairing>(c: &Ctx<E>, t: &mut Tape<'_>, o: &mut Obs) -> R {
+    let r = &c.fr.p;
+    let (s1, c1) = edge_value(t, &c.fr);
+    let (s2, rel) = match t.weighted(&[6, 1, 1]) {
+        0 => (edge_value(t, &c.fr).0, "independent"),
+        1 => (s1.clone(), "same"),
+        _ => ((r - &s1) % r, "negation"),
+    };
+    o.show(|| format!("{}: x = g^{} [{}], y = g^{} [{}]", c.name, hx(&s1), c1, hx(&s2), rel));
+    let one = BigUint::one();
+    o.nt(s1 > one && s2 > one);
+    o.class(rel);
+    o.class(c1);
+    o.evals(16);
+    let g = c.base()?;
+    let fx = plain_pow(&g, &s1);
+    let fy = plain_pow(&g, &s2);
+    let (x, y) = (PairingOutput::<E>(fx), PairingOutput::<E>(fy));
+    // inverses in the target field, validated by multiplication (so the oracle does not rest on `inverse`)
+    let ix = fx.inverse().ok_or(Fail { sig: "oracle".into(), msg: "target element not invertible".into() })?;
+    let iy = fy.inverse().ok_or(Fail { sig: "oracle".into(), msg: "target element not invertible".into() })?;
+    ensure!((fx * ix).is_one() && (fy * iy).is_one(), "oracle", "field inverse is not an inverse");
+    let fone = E::TargetField::one();
+    // zero
+    ensure!(PairingOutput::<E>::zero().0 == fone, "zero", "zero() is not the one of the target field");
+    ensure!(<PairingOutput<E> as AdditiveGroup>::ZERO.0 == fone, "zero.const", "ZERO is not one");
+    ensure!(PairingOutput::<E>::default().0 == fone, "zero.default", "default() is not one");
+    ensure_eq!(x.is_zero(), fx == fone, "is_zero");
+    // add
+    let w = fx * fy;
+    ensure!((x + y).0 == w, "add", "x + y != x.0 * y.0");
+    ensure!((x + &y).0 == w, "add.ref", "x + &y");
+    ensure!((&x + &y).0 == w, "add.refref", "&x + &y");
+    let mut z = x;
+    z += y;
+    ensure!(z.0 == w, "add_assign", "x += y");
+    let mut z = x;
+    z += &y;
+    ensure!(z.0 == w, "add_assign.ref", "x += &y");
+    // sub
+    let w = fx * iy;
+    ensure!((x - y).0 == w, "sub", "x - y != x.0 * y.0^-1");
+    ensure!((x - &y).0 == w, "sub.ref", "x - &y");
+    ensure!((&x - &y).0 == w, "sub.refref", "&x - &y");
+    let mut z = x;
+    z -= y;
+    ensure!(z.0 == w, "sub_assign", "x -= y");
+    let mut z = x;
+    z -= &y;
+    ensure!(z.0 == w, "sub_assign.ref", "x -= &y");
+    // neg
+    ensure!((-x).0 == ix, "neg", "-x != x.0^-1");
+    ensure!((x - x).0 == fone, "sub.self", "x - x != 0");
+    ensure!((x + (-x)).0 == fone, "neg.add", "x + (-x) != 0");
+    // double
+    let w = fx * fx;
+    ensure!(x.double().0 == w, "double", "x.double() != x.0^2");
+    let mut z = x;
+    z.double_in_place();
+    ensure!(z.0 == w, "double_in_place", "double_in_place");
+    // neutral element
+    ensure!(x + PairingOutput::<E>::zero() == x, "add.zero", "x + 0 != x");
+    // iterator sum
+    let s: PairingOutput<E> = [x, y, x].iter().sum();
+    ensure!(s.0 == fx * fy * fx, "sum", "iter().sum()");
+    Ok(())
+}
+
+// ---------------------------------------------------------------------------------------------------------------
+// registration
+// ---------------------------------------------------------------------------------------------------------------
+
+#[derive(Clone, Copy, PartialEq)]
+enum Speed {
+    /// a few ms per pairing at this optimisation level (BLS12, BN254, MNT-298)
+    Fast,
+    /// BW6
+    Medium,
+    /// MNT-753
+    Slow,
+    /// CP6-782 (affine Miller loop with a field inversion per step: ~1 s per pairing)
+    VerySlow,
+}
+
+fn engine<E: Pairing>(out: &mut Vec<Rel>, name: &'static str, tier: Tier, speed: Speed, g2_identity: bool) {
+    let max_len = if speed == Speed::VerySlow { tier.pick(3, 5) } else { 9 };
+    let c = Arc::new(Ctx::<E>::new(name, g2_identity, max_len));
+    let n = c.fr.n;
+    let sw = 2 * n + 8; // words per edge scalar
+    let q = |counts: [u32; 4]| {
+        let b = counts[speed as usize];
+        tier.pick(b, b * 15)
+    };
+    let cc = c.clone();
+    out.push(Rel::new(format!("bilinear/{}", name), q([240, 120, 50, 10]), 2 * sw + 8, move |t, o| bilinear::<E>(&cc, t, o)).shrink_iters(60));
+    let cc = c.clone();
+    out.push(Rel::new(format!("additive/{}", name), q([120, 60, 24, 5]), 3 * sw + 12, move |t, o| additive::<E>(&cc, t, o)).shrink_iters(60));
+    let cc = c.clone();
+    out.push(Rel::new(format!("multi/{}", name), q([100, 60, 30, 4]), 6 * sw + 32, move |t, o| multi_rel::<E>(&cc, t, o)).shrink_iters(60));
+    {
+        let cc = c.clone();
+        let full = speed == Speed::Fast || speed == Speed::Medium || tier == Tier::Thorough;
+        let kqs: Vec<u64> = if g2_identity { (0..7).collect() } else { vec![0, 1] }; // exact mode: 5 + (kq % 2)
+        out.push(
+            Rel::new(format!("identity/{}", name), q([40, 30, 10, 4]), 5, move |t, o| identity_rel::<E>(&cc, t, o))
+                .shrink_iters(60)
+                .exhaustive(move || {
+                    let kqs = kqs.clone();
+                    Box::new((0..7u64).flat_map(move |kp| {
+                        kqs.clone().into_iter().flat_map(move |kq| {
+                            let apis: Vec<u64> = if full { vec![0, 1] } else { vec![(kp + kq) % 2] };
+                            apis.into_iter().map(move |api| vec![kp, kq, api, 3 * kp + kq, 5 * kq + kp + 1])
+                        })
+                    }))
+                }),
+        );
+    }
+    let cc = c.clone();
+    out.push(Rel::new(format!("grouplaws/{}", name), q([300, 100, 60, 40]), 2 * sw + 4, move |t, o| grouplaws::<E>(&cc, t, o)).shrink_iters(200));
+}
+
+fn relations(tier: Tier) -> Vec<Rel> {
+    use Speed::*;
+    let mut out = Vec::new();
+    // slow engines first so that the long relations start early.
+    // CP6-782 (hand-written pairing in the curve crate, not one of the model families of the statement) used to panic on
+    // the identity of G2; repaired in /repo by commit c8f18f2, so identities are generated for it as for every engine.
+    engine::<ark_cp6_782::CP6_782>(&mut out, "cp6_782", tier, VerySlow, true);
+    engine::<ark_mnt6_753::MNT6_753>(&mut out, "mnt6_753", tier, Slow, true);
+    engine::<ark_mnt4_753::MNT4_753>(&mut out, "mnt4_753", tier, Slow, true);
+    engine::<ark_bw6_761::BW6_761>(&mut out, "bw6_761", tier, Medium, true);
+    engine::<ark_bw6_767::BW6_767>(&mut out, "bw6_767", tier, Medium, true);
+    engine::<ark_bls12_381::Bls12_381>(&mut out, "bls12_381", tier, Fast, true);
+    engine::<ark_test_curves::bls12_381::Bls12_381>(&mut out, "test.bls12_381", tier, Fast, true);
+    engine::<ark_bls12_377::Bls12_377>(&mut out, "bls12_377", tier, Fast, true);
+    engine::<ark_bn254::Bn254>(&mut out, "bn254", tier, Fast, true);
+    engine::<ark_mnt4_298::MNT4_298>(&mut out, "mnt4_298", tier, Fast, true);
+    engine::<ark_mnt6_298::MNT6_298>(&mut out, "mnt6_298", tier, Fast, true);
+    out
+}
+
 fn main() {
-    eprintln!("C06: check not implemented");
-    std::process::exit(2);
+    vh_core::engine::main(PropSpec {
+        id: "C06",
+        rule: "Points are P = a*G1, Q = b*G2 with edge-biased scalars a, b in [0, r) (0, 1, 2, r-1, near r, (r±1)/2, 2^k(±1), edge limbs, small, uniform) plus explicit identity representations (affine identity, projective zero(), X-X, prepared from either), passed as affine, projective or prepared (from affine / from projective) values through pairing, miller_loop+final_exponentiation, multi_pairing and multi_miller_loop+final_exponentiation; lists have 0..=9 equal-length entries drawn from a pool of three points per group, the generator and the identity (so repeats and identities at arbitrary positions are frequent). Oracle: g = e(G1,G2) != 1 and every output equals g^(sum a_i*b_i mod r) computed by plain square-and-multiply in the target field, outputs agree across entry points and input forms, the multi-pairing equals the product of the individual pairings, output^r = 1, PairingOutput +,-,neg,zero,double equal field multiplication / inversion. A case is non-trivial when both points are non-identity and (a,b) is outside {0,1}^2, or the list has length >= 2 (group laws: both exponents outside {0,1}); distinct = distinct decoded choice sequences.",
+        assumptions: &[
+            "scalar multiplication and addition in G1/G2 (C03/C04), target-field multiplication/squaring (C02) and num-bigint are trusted as oracle ingredients",
+            "e(G1,G2) as returned by the engine under test is the reference value g (a defect that rescales every output of an engine by the same bilinear, non-degenerate map of order r is invisible by design: it is still a pairing)",
+            "CP6-782 is an extra engine outside the six model families of the statement",
+        ],
+        relations,
+    })
 }
